@@ -158,12 +158,14 @@ def run_one(case):
         except Exception as e:  # outcome of the code under test, judged below
             exc = e
     fails = []
-    if exc is not None and (any(masks) or S0):
-        # Is this configuration supported at all?  The same call on the null-free frame without a
-        # caller set must work, otherwise the failure is not a missing-data matter (e.g. lag() on a
-        # narwhals series, str columns into a sparse matrix): the case is skipped and counted.
-        _, base_fails, base_skipped = run_one((n, (0, 0, 0), ik, td, fname, na, ("none", None), entry, out))
-        if base_skipped or any(c.endswith(".completes") or c.endswith(".all-rows") or c.endswith(".iff") for c, _, _ in base_fails):
+    if exc is not None:
+        # Is this configuration supported at all?  The same call on the null-free frame, default
+        # policy, no caller set must work, otherwise the failure is not a missing-data matter (e.g.
+        # lag() on a narwhals series, str columns into a sparse matrix): the case is skipped and counted.
+        base = (n, (0, 0, 0), ik, td, fname, "drop", ("none", None), entry, out)
+        if case == base:
+            return False, [], True
+        if run_one(base)[2]:
             return False, [], True
     check_index = out == "pandas" and entry != "NarwhalsMaterializer"
 
@@ -214,9 +216,6 @@ def run_one(case):
                 rows(list(range(n)), "ignore")
             else:
                 rows([i for i in range(n) if i not in S0], "ignore")
-    if exc is not None and not (any(masks) or S0) and fails:
-        # null-free frame, no caller set, and the call still fails: unsupported configuration
-        return False, fails, True
     return nontrivial, fails, False
 
 
@@ -267,6 +266,7 @@ def classify(case, clause, symptom):
 
     def still_fails(sub):
         _, fails2, skipped2 = run_one(_neutralize(case, sub))
+        # (skipped2: the neutralised configuration is unsupported as such)
         # a neutralised case that is unsupported or dies with an exception tells nothing
         return skipped2 or any(c == clause or c.endswith((".completes", ".all-rows")) for c, _, _ in fails2)
 
